@@ -73,6 +73,7 @@ def run(ctx):
     len_rule(ctx)
     eof_rule(ctx)
     pack_rule(ctx)
+    vecmin_rule(ctx)
 
 
 def _fn(b):
@@ -937,6 +938,107 @@ def _width_shape(F, fns):
             if not ok:
                 return "other"
     return "unsigned-magnitude" if n else "unknown"
+
+
+# ------------------------------------------------------------------------------------------------ vec element minimum
+_SIZES = {"u8": 1, "i8": 1, "bool": 1, "u16": 2, "i16": 2, "u32": 4, "i32": 4, "f32": 4, "u64": 8, "i64": 8, "f64": 8, "usize": 8, "isize": 8, "u128": 16, "i128": 16}
+
+
+def _min_bytes_lower_bound(F, b, depth=0):
+    """sound lower bound of what a `minimum_bytes_needed` body returns: constants, size_of::<prim>(), sums, min/max and
+    delegation to another minimum_bytes_needed are understood; anything else (branches, unknown calls) counts as 0"""
+    if b is None or depth > 6:
+        return 0
+    if any(bl["term"]["t"] == "sw" for i, bl in enumerate(b.blocks) if i in b.live_blocks()):
+        return 0
+    val = {}
+
+    def opv(op):
+        k = op_const(op)
+        if k is not None:
+            v = F.const_value(k)
+            return v if isinstance(v, int) else 0
+        p_ = op_place(op)
+        if p_ is None:
+            return 0
+        if len(p_) == 1:
+            return val.get(p_[0], 0)
+        if len(p_) == 2 and isinstance(p_[1], list) and p_[1][0] == "f" and p_[1][1] == 0:
+            return val.get(p_[0], 0)      # (sum, overflowed).0
+        return 0
+    bb, seen = 0, set()
+    while bb is not None and bb not in seen:
+        seen.add(bb)
+        bl = b.blocks[bb]
+        for st in bl["s"]:
+            if st[0] != "A" or len(st[1]) != 1:
+                continue
+            rv = st[2]
+            if rv[0] == "use":
+                val[st[1][0]] = opv(rv[1])
+            elif rv[0] == "bin" and rv[1].startswith("Add"):
+                val[st[1][0]] = opv(rv[2]) + opv(rv[3])
+            elif rv[0] == "bin" and rv[1].startswith("Mul"):
+                val[st[1][0]] = opv(rv[2]) * opv(rv[3])
+            elif rv[0] == "null" and rv[1] == "SizeOf":
+                val[st[1][0]] = _SIZES.get(rv[2], 0)
+            else:
+                val[st[1][0]] = 0
+        t = bl["term"]
+        if t["t"] == "call" and t.get("dest") and len(t["dest"]) == 1:
+            f = t.get("f", "")
+            d = t["dest"][0]
+            if f == "core::mem::size_of":
+                ta = (t.get("targs") or [""])[0]
+                val[d] = _SIZES.get(ta, 0)
+            elif f.endswith("::minimum_bytes_needed"):
+                callee = F.get(t.get("r") or "")
+                if callee is not None and callee is not b:
+                    val[d] = _min_bytes_lower_bound(F, callee, depth + 1)
+                else:
+                    st_ = t.get("self", "")
+                    # speedy's own impls: primitives and length-prefixed strs / vecs (u32 length by default)
+                    val[d] = _SIZES.get(st_, 4 if re.match(r"^(&('\w+ )?str|alloc::string::String|alloc::vec::Vec<)", st_) else 0)
+            elif f in ("core::cmp::min", "core::cmp::Ord::min"):
+                val[d] = min(opv(t["args"][0]), opv(t["args"][1]))
+            elif f in ("core::cmp::max", "core::cmp::Ord::max"):
+                val[d] = max(opv(t["args"][0]), opv(t["args"][1]))
+            else:
+                val[d] = 0
+        if t["t"] == "ret":
+            return max(0, val.get(0, 0))
+        bb = t.get("tgt") if t["t"] in ("goto", "call", "assert", "drop") else None
+    return 0
+
+
+def vecmin_rule(ctx):
+    """speedy reserves `Vec::with_capacity(len)` for a length-prefixed `Vec<T>` after checking only that
+    `len * T::minimum_bytes_needed()` bytes remain.  The trait default is 0, so for a hand-written `Readable` that does not
+    override it the check is vacuous and a peer-chosen length (u32) is reserved outright: a 27-byte
+    `SyncMessage::V1(Request([(actor, <len=0xffffffff> ..)]))` asks for 137 GB and the process aborts."""
+    F = ctx.F
+    R = ctx.rule("C09.vecmin", "K6", "every hand-written speedy Readable in the workspace overrides minimum_bytes_needed with a positive bound, so a Vec of it cannot be reserved beyond the remaining input")
+    hand = [b for b in F.bodies.values() if b.impl_trait == READABLE and b.id.endswith("::read_from") and not b.mac]
+    if not R.floor(len(hand), 8, "hand-written", "hand-written Readable impls"):
+        return
+    # where such types are read as Vec elements through speedy (for the report)
+    uses = defaultdict(list)
+    for c in F.all_calls():
+        if c.f.startswith("speedy::") and "Vec<" in " ".join(c.t.get("targs") or []) + c.self_ty:
+            txt = " ".join(c.t.get("targs") or []) + " " + c.self_ty
+            for b in hand:
+                ty = b.impl_self or ""
+                if ty and re.search(r"Vec<[^>]*%s" % re.escape(ty), txt):
+                    uses[ty].append(c.where())
+    for b in sorted(hand, key=lambda x: x.id):
+        ty = b.impl_self or b.id
+        mb = F.get(b.id[:-len("read_from")] + "minimum_bytes_needed")
+        lb = _min_bytes_lower_bound(F, mb) if mb is not None else 0
+        R.require(lb > 0, "min>0:" + cm.short_id(ty), b.where(), "minimum_bytes_needed() >= %d" % lb,
+                  fail_msg="%s has a hand-written Readable but %s: speedy's read_vec guard `len * 0 <= remaining` is vacuous, so `Vec<%s>` reserves a peer-chosen length "
+                           "(u32) before reading anything%s - allocation unrelated to the input size, process abort on failure"
+                           % (ty, "no minimum_bytes_needed (trait default 0)" if mb is None else "a minimum_bytes_needed with lower bound 0", ty.rsplit("::", 1)[-1],
+                              (" (read as a Vec element at %s)" % uses[ty][0]) if uses.get(ty) else ""))
 
 
 # ------------------------------------------------------------------------------------------------ controls
